@@ -233,7 +233,7 @@ def body(case, stats):
 
 
 def worker(widx, seed, tier, stats):
-    n = {'quick': 40, 'thorough': 1200}[tier]
+    n = {'quick': 40, 'thorough': 250}[tier]
     opts = gen.GenOpts(avoid=common.avoid_set(ID), big_sizes=False)
     runner.run_given(cases(opts), body, seed, n, stats)
     if tier == 'thorough' and not stats.violations:
